@@ -5,7 +5,7 @@ ASSUMPTIONS = ["callback contract: stores at most buf_len bytes and returns that
                "lh_new table readers and tree builder are checked on scaled template parameters / scaled tree sizes (same source text)",
                "lh1 tree maintenance checked at scaled NUM_CODES (hook), copy/offset paths at real constants"]
 BITS = {"lib/bit_stream_reader.c": ["peek_bits", "read_bits", "read_bit"]}
-BITSTUB = "peek_bits/read_bits/read_bit: arbitrary value of the requested width or failure per call, asserting n <= 32 (justified by bits.safe)"
+BITSTUB = "peek_bits/read_bits/read_bit: arbitrary value of the requested width or failure per call, asserting n <= 31 (justified by bits.safe)"
 
 
 def rn(extra):
@@ -15,9 +15,9 @@ def rn(extra):
 
 
 HARNESSES = [
-    dict(name="bits.safe", src="C01/bits.c", defines=["NMAX=32"], mode="safety", unwind=6, unwindset={"ref_bits.0": 34, "cb_read.0": 5, "harness.0": 7, "harness.1": 5},
+    dict(name="bits.safe", src="C01/bits.c", defines=["NMAX=31"], mode="safety", unwind=6, unwindset={"ref_bits.0": 34, "cb_read.0": 5, "harness.0": 7, "harness.1": 5},
          units=["lib/bit_stream_reader.c"], timeout=600, mem_gb=4,
-         bounds="arbitrary reader state (bits <= 32), any request 0..32 bits, arbitrary short reads / end of data", stubs=["cb_read"]),
+         bounds="arbitrary reader state (bits <= 32), any request 0..31 bits, arbitrary short reads / end of data", stubs=["cb_read"]),
     dict(name="lzs.read", src="C09/lzs.c", entry="harness_read", defines=["READ_HARNESS", "BITS_ANY"], rename_defs=rn({"lib/lzs_decoder.c": ["output_byte"]}), mode="safety",
          unwind=18, flags=["--slice-formula"], units=["lib/lzs_decoder.c:lha_lzs_read,output_block"], timeout=300, bounds="arbitrary ring/pos; one command",
          stubs=[BITSTUB, "output_byte: contract stub (justified by lzs.outbyte)"]),
